@@ -16,6 +16,7 @@ from .values import *  # noqa
 from .engine import Inconclusive, copy_into
 
 REGISTRY = []
+PIECES = {}   # array ast id -> (array, base offset, [(arr, off, len)]) for buffers built by extend_from_slice
 
 
 def model(pattern):
@@ -627,6 +628,15 @@ def _extend(ex, p, m, a, func, fr):
     b = ex.load(p.st, tr.base, tr.proj)
     sa, so, sl = ex.bytes_view(p.st, a[1])
     nb = b.with_(arr=copy_into(b.arr, b.off + b.len, sa, so, sl), len=b.len + sl)
+    # remember how the buffer was put together (used by oracles that compare released bytes piece by piece)
+    prev = PIECES.get(b.arr.get_id())
+    if prev is not None and prev[0] is b.arr and z3.eq(prev[1], b.off):
+        ps = prev[2]
+    elif z3.is_true(z3.simplify(b.len == 0)):
+        ps = []
+    else:
+        ps = [(b.arr, b.off, b.len)]
+    PIECES[nb.arr.get_id()] = (nb.arr, b.off, ps + [(sa, so, sl)])
     return one(U(), apply=lambda q: ex.store(q.st, tr.base, tr.proj, nb))
 
 
